@@ -5,10 +5,12 @@ package fsutil
 
 import (
 	"os"
+	"syscall"
 
 	"github.com/pkg/errors"
 )
 
 func isNotFound(err error) bool {
-	return errors.Is(err, os.ErrNotExist)
+	// a path below a non-directory does not exist either
+	return errors.Is(err, os.ErrNotExist) || errors.Is(err, syscall.ENOTDIR)
 }
